@@ -5,8 +5,9 @@ Model tie:   the attribute tables (_DEFAULT_VALUES of every class, vars() of a N
              objects; the model's to_dict JSON, from_dict(to_dict) and from_dict(json(to_dict)) are evaluated in Coq and
              compared with what the implementation produces.
 Oracle:      deep comparison (written here, independent of deep_equal_to) of original vs reloaded network for
-             to_dict->from_dict and save_instance->load_instance; simulation of original vs reloaded under the same seed;
-             original not mutated; other instances in the file preserved over random save/replace/load sequences;
+             to_dict->from_dict and save_instance->load_instance, each also repeated on the SAME dict object / file record and as a
+             second-generation round trip; the dict handed to from_dict is not changed by it; simulation of original vs reloaded
+             under the same seed; original not mutated; other instances in the file preserved over random save/replace/load sequences;
              write_results CSV cells vs the state variables their headers name.
 """
 import contextlib, copy, csv, io, itertools, json, os, re, shutil, time, traceback
@@ -22,8 +23,11 @@ RULE = ('networks with 1-5 nodes (serial / assembly / distribution / random DAG,
         'unset / None / scalar / product-keyed dict; lead times; GSM attributes; inventory policy (BS, sS, rQ, FQ, EBS, BEBS, None type) as singleton, '
         'product-keyed dict or product-level object; demand source (N, P, UD, UC, NB, D, CD) likewise; disruption process (default, None, Markov or '
         'explicit, OP/SP/TP/RP) ; with and without saved state variables (a short simulation is run first). For every network: '
-        'to_dict->from_dict, to_dict->json->from_dict, save_instance->load_instance (with / without state variables), simulation of original vs '
-        'reloaded under one seed, CSV of write_results (real and tagged state variables); plus random save/replace/load sequences on one file. '
+        'to_dict->from_dict, to_dict->json->from_dict, save_instance->load_instance (with / without state variables); histories on one dict object '
+        '(d = to_dict(); from_dict(d); simulate the result; from_dict(d) again: both results equal the original and simulate like it, d itself is '
+        'unchanged by being read, a later to_dict() equals d) and on one file record (second load of the same file; the loaded network saved over '
+        'the record and loaded again), second-generation round trips (from_dict(to_dict(from_dict(to_dict(n))))); simulation of original vs '
+        'reloaded (from dict, from the second conversion of the same dict, from file) under one seed, CSV of write_results (real and tagged state variables); plus random save/replace/load sequences on one file. '
         'non-trivial = the network has a product-keyed attribute, a non-default object attribute or saved state variables; distinct = distinct spec.')
 
 KNOWN_D1 = 'DemandSource.to_dict|derived-mean-sd-written'
